@@ -265,6 +265,37 @@ def register(R, tier="quick"):
                canaries=[Canary("always-negated", "if self._reverse:", "if not self._reverse:")],
                note="sort key of a non-reversed numeric column is the row's own number")
 
+    # reversed sorting: the key of a row is the NEGATED number, and the key a segment WITHOUT a column file hands out for
+    # every document (EmptyColumnReader over default_value(reverse)) is the key a column file would give a value-less row
+    def mk_nreader_rev(I, fixedlen):
+        o = mk_nreader(I, fixedlen)
+        o.fields["_reverse"] = z3.Bool("reversed")
+        return o
+
+    def nsort_post(I, env):
+        s = env["self"]
+        f, fl, cnt = s.fields["_dbfile"], s.fields["_fixedlen"], s.fields["_count"]
+        dn = env["docnum"]
+        v = z3.If(dn < cnt, UNPACK(f.at(f.base + fl * dn)), to_z3(s.fields["_default"]))
+        return to_z3(env["result"]) == z3.If(to_z3(s.fields["_reverse"]), 0 - v, v)
+
+    R.contract(C + ":NumericColumn.Reader.sort_key", label=C + ":NumericColumn.Reader.sort_key#reverse", props=["C14", "C08"],
+               setup=lambda I, fixedlen: {"self": mk_nreader_rev(I, fixedlen), "docnum": z3.Int("docnum")},
+               variants=[dict(fixedlen=4)],
+               requires=[wf_reader, "docnum >= 0"],
+               ensures=[nsort_post], returns="int",
+               canaries=[Canary("reverse-ignored", "if self._reverse:", "if False:")],
+               note="sort key = the row's number, negated exactly when the reader was set to reverse; a value-less row gives "
+                    "(-)default")
+    R.contract(C + ":NumericColumn.default_value", props=["C14", "C08"],
+               setup=lambda I: {"self": Obj(I.repo.klass(C, "NumericColumn"), {"_default": z3.Int("cdefault")}), "reverse": z3.Bool("reverse")},
+               ensures=[lambda I, env: to_z3(env["result"]) == z3.If(env["reverse"], 0 - env["self"].fields["_default"], env["self"].fields["_default"])],
+               returns="int",
+               canaries=[Canary("reverse-ignored", "if reverse:", "if False:")],
+               note="what a segment without a column file answers for every document equals the sort key a column file gives a "
+                    "value-less row (previous contract): (-)default - so the order of value-less documents does not depend on "
+                    "whether their segment happens to have a column file")
+
 
 # ====================================================================== VarBytesColumn (variable-length rows)
 class GArr(Abstract):
